@@ -344,8 +344,10 @@ Definition from_dict (m : str * list (str * str) * list (str * str)) : conv :=
 (* ac_factory(): one converter per map, in order *)
 Definition default_acs : list conv := map from_dict attr_maps.
 
-(* an AttributeValue: text, or one NameID extension element (eduPersonTargetedID) *)
-Inductive aval := AText (s : str) | ANameID (fmt : str) (s : str).
+(* an AttributeValue: text, or one NameID extension element (eduPersonTargetedID), or one extension element
+   of the assertion namespace that is not a NameID (AOther: an attribute-less Audience element; to_ never
+   builds one - it is there to say how the reader treats extension elements other than NameID) *)
+Inductive aval := AText (s : str) | ANameID (fmt : str) (s : str) | AOther (s : str).
 Record attribute := { at_name : str; at_format : option str; at_friendly : option str; at_values : list aval }.
 
 Definition EPTID_OID : str := s2l "urn:oid:1.3.6.1.4.1.5923.1.1.1.10".
@@ -378,7 +380,8 @@ Fixpoint from_local (acs : list conv) (ava : identity) (name_format : str) : opt
 (* what the application reads for one value *)
 Inductive rval :=
 | RStr (s : str)
-| RNameID (fmt : option str) (value : option str).     (* {'NameID': {'format': .., 'value': ..}} *)
+| RNameID (fmt : option str) (value : option str)      (* {'NameID': {'format': .., 'value': ..}} *)
+| ROther (value : option str).                         (* {'Audience': {'value': ..}} *)
 
 Definition truthy (s : str) : option str := match s with [] => None | _ => Some s end.
 
@@ -394,6 +397,11 @@ Definition read_value (local : str) (v : aval) : rval :=
            | [] => RNameID (truthy fmt) None
            | _ => RNameID (truthy fmt) (Some (strip s))
            end
+  | AOther s =>                                          (* not a NameID: its text only under eduPersonTargetedID and only if it has one *)
+      match s with
+      | [] => ROther None
+      | _ => if str_eqb local EPTID then RStr (strip s) else ROther (Some (strip s))
+      end
   end.
 
 (* AttributeConverter.ava_from (allow_unknown = False): None = KeyError *)
@@ -404,7 +412,7 @@ Definition ava_from (c : conv) (a : attribute) : option (str * list rval) :=
   end.
 (* lcd_ava_from *)
 Definition lcd_ava_from (a : attribute) : str * list rval :=
-  (strip (at_name a), map (fun v => match v with AText s => RStr (strip s) | ANameID _ _ => RStr [] end) (at_values a)).
+  (strip (at_name a), map (fun v => match v with AText s => RStr (strip s) | ANameID _ _ | AOther _ => RStr [] end) (at_values a)).
 
 (* list_to_local (after proposed_fix/C08-2): acsd[name_format] = EVERY converter registered for that name
    format, in ac_factory order (the order from_local looks at them) *)
@@ -461,6 +469,11 @@ Definition read_value_before_fix (local : str) (v : aval) : rval :=
       | [] => RNameID (truthy fmt) None
       | _ => if str_eqb local EPTID then RStr (strip s) else RNameID (truthy fmt) (Some (strip s))
       end
+  | AOther s =>
+      match s with
+      | [] => ROther None
+      | _ => if str_eqb local EPTID then RStr (strip s) else ROther (Some (strip s))
+      end
   end.
 Definition ava_from_before_fix (c : conv) (a : attribute) : option (str * list rval) :=
   match dict_get (lower (strip (at_name a))) (c_fro c) with
@@ -501,6 +514,7 @@ Definition value_xml (v : aval) : xml :=
   match v with
   | AText s => Node (T "AttributeValue") [(A "xsi:type", A "xs:string"); (A "xmlns:xs", XS_NAMESPACE)] s []
   | ANameID fmt s => Node (T "AttributeValue") [] [] [Node (T "NameID") [(A "Format", fmt)] s []]
+  | AOther s => Node (T "AttributeValue") [] [] [Node (T "Audience") [] s []]
   end.
 Definition opt_attr (n : string) (v : option str) : list (str * str) :=
   match v with Some s => [(A n, s)] | None => [] end.
@@ -520,6 +534,7 @@ Definition value_of_xml (t : xml) : aval :=
   match x_kids t with
   | Node tag attrs text _ :: _ =>
       if str_eqb tag (T "NameID") then ANameID (match get_attr (A "Format") attrs with Some f => f | None => [] end) text
+      else if str_eqb tag (T "Audience") then AOther text
       else AText (x_text t)
   | [] => AText (x_text t)
   end.
@@ -755,6 +770,7 @@ Definition show_rval (v : rval) : val :=
   match v with
   | RStr s => VS s
   | RNameID f x => VL [VS (s2l "NameID"); show_ostr f; show_ostr x]
+  | ROther x => VL [VS (s2l "Audience"); VNone; show_ostr x]
   end.
 (* dict order is not an observable: sort by key *)
 Fixpoint str_leb (a b : str) : bool :=
@@ -773,7 +789,7 @@ Definition show_ava (d : ava) : val :=
   VL (map (fun kv => VL [VS (fst kv); VL (map show_rval (snd kv))]) (sort_kv d)).
 Definition show_attribute (a : attribute) : val :=
   VL [VS (at_name a); show_ostr (at_format a); show_ostr (at_friendly a);
-      VL (map (fun v => match v with AText s => VS s | ANameID f s => VL [VS f; VS s] end) (at_values a))].
+      VL (map (fun v => match v with AText s => VS s | ANameID f s => VL [VS f; VS s] | AOther s => VL [VS (s2l "Audience"); VS s; VNone] end) (at_values a))].
 Definition show_attributes (o : option (list attribute)) : val := show_option (fun l => VL (map show_attribute l)) o.
 Definition show_nameid (n : nameid) : val := VL [VS (n_text n); show_ostr (n_format n); show_ostr (n_spq n); show_ostr (n_nq n)].
 Definition show_view (v : app_view) : val :=
